@@ -81,7 +81,8 @@ def sync_coq(clean=False):
     gen = sh([sys.executable, os.path.join(ROOT, "tools", "gen_extracted.py")], cwd=ROOT, timeout=120)
     if gen.returncode != 0:
         log("translator failed:", gen.stderr[-2000:])
-    if not os.path.exists(os.path.join(COQ, "Makefile")) or clean:
+    mkf, prj = os.path.join(COQ, "Makefile"), os.path.join(COQ, "_CoqProject")
+    if not os.path.exists(mkf) or clean or os.path.getmtime(prj) > os.path.getmtime(mkf):
         sh(["coq_makefile", "-f", "_CoqProject", "-o", "Makefile"], cwd=COQ, timeout=60)
     if clean:
         sh(["make", "clean"], cwd=COQ, timeout=300)
@@ -202,12 +203,21 @@ def build_harness(profile):
 
 def run_engine(binary, engine, seed, n, tier, timeout=1500, mem_kb=4 * 1024 * 1024):
     cmd = f"ulimit -v {mem_kb}; exec {binary} {engine} {seed} {n} {tier}"
-    p = subprocess.run(["bash", "-c", cmd], capture_output=True, text=True, timeout=timeout)
+    try:
+        p = subprocess.run(["bash", "-c", cmd], capture_output=True, text=True, timeout=timeout)
+        out, rc, err = p.stdout, p.returncode, p.stderr[-2000:]
+    except subprocess.TimeoutExpired as e:
+        # the implementation did not return on some generated input: what was printed before it is kept
+        out = e.stdout.decode("utf-8", "replace") if isinstance(e.stdout, bytes) else (e.stdout or "")
+        rc, err = "hang", f"ENGINE-HANG engine={engine} seed={seed} n={n} tier={tier}: no result within {timeout} s"
     cases = []
-    for line in p.stdout.split("\n"):
-        if line.startswith("{"):
-            cases.append(json.loads(line))
-    return cases, p.returncode, p.stderr[-2000:]
+    for line in out.split("\n"):
+        if line.startswith("{") and line.rstrip().endswith("}"):
+            try:
+                cases.append(json.loads(line))
+            except ValueError:
+                pass
+    return cases, rc, err
 
 
 # ----------------------------------------------------------------------------------------------- main
@@ -326,11 +336,17 @@ def main():
                 n, eseed, rtier = replay_spec["n"], replay_spec["seed"], replay_spec["tier"]
             else:
                 rtier = tier
-            cases, rc, stderr = run_engine(binary, name, eseed, n, rtier)
+            cases, rc, stderr = run_engine(binary, name, eseed, n, rtier, timeout=(300 if rtier == "quick" else 2400))
             if rc == 3 and "ENGINE-PANIC" in stderr:
-                # the implementation panicked under the harness: a C08 violation whoever asked
-                engine_panics.append({"engine": name, "profile": profile, "seed": eseed, "n": n, "tier": rtier,
-                                      "what": "the implementation panicked while the harness drove it (no catch_unwind expected this)",
+                # the implementation panicked under the harness where no panic is an expected outcome
+                engine_panics.append({"engine": name, "profile": profile, "seed": eseed, "n": n, "tier": rtier, "index": len(cases),
+                                      "what": "the implementation panicked while the harness drove it on the generated input with this index "
+                                              "(regenerate: bsverif <engine> <seed> <index+1> <tier>, last case)",
+                                      "stderr": stderr[-1500:], "cases_completed": len(cases)})
+            elif rc == "hang":
+                engine_panics.append({"engine": name, "profile": profile, "seed": eseed, "n": n, "tier": rtier, "index": len(cases),
+                                      "what": "the implementation did not return (non-terminating loop or unbounded allocation) on the generated "
+                                              "input with this index (regenerate: bsverif <engine> <seed> <index+1> <tier>, last case)",
                                       "stderr": stderr[-1500:], "cases_completed": len(cases)})
             elif rc != 0:
                 harness_errors.append(f"harness {name} ({profile}) exited {rc}: {stderr[-500:]}")
@@ -388,14 +404,13 @@ def main():
             # nothing is reported for it (the finding may have been repaired)
             log(f"known finding {k['id']} did not manifest in this run")
 
-    if engine_panics and pid == "C08":
+    if engine_panics:
+        # a panic or a hang of the implementation on a generated input: C08 by itself, and for any other property the
+        # input is one on which the property cannot hold either (no result was produced); the replay names the input
         path = write_replay(pid, seed, engine_panics[0])
         lines.append(f"VIOLATION property={pid} replay={path}")
         violations = len(engine_panics)
         rc = 1
-    elif engine_panics:
-        for e in engine_panics:
-            harness_errors.append(f"implementation panicked under engine {e['engine']}: {e['stderr'][-300:]}")
     if rc == 1:
         pass
     elif new_oracle:
